@@ -1,11 +1,20 @@
 ------------------------------ MODULE TileLock ------------------------------
 (* The read-modify-write interface of toasty/pyramid.py, PyramidIO.update_image: *)
 (*                                                                             *)
-(*     p = self.tile_path(pos)                    lock key: position only      *)
+(*     p = self.tile_path(pos, format=format or self._default_format)          *)
+(*                                                lock key: the tile FILE      *)
 (*     with SoftFileLock(p + ".lock"):            TryAcquire ... Release       *)
 (*         img = self.read_image(pos, ...)        Read                         *)
 (*         yield img                              Modify (the caller's body)   *)
 (*         self.write_image(pos, img, ...)        WriteBegin, WriteEnd         *)
+(*                                                                             *)
+(* A "tile" / "position" of this module is one tile FILE: a pyramid directory,  *)
+(* a path scheme, a position and the format the tile is stored in.  Updaters    *)
+(* reach it through their own PyramidIO objects, which may differ in everything *)
+(* that does not change the file: the object's default format dflt[p] (given,   *)
+(* or guessed at construction from what the directory held then) when the       *)
+(* format is named in the call (fmt[p] = 1), the spelling of the base           *)
+(* directory and of the scheme, the process and the moment of construction.     *)
 (*                                                                             *)
 (* as used by several worker processes at once (multi_tan / multi_wcs          *)
 (* _mp_tile_worker, toast.ToastSampler in update mode).  SoftFileLock is an     *)
@@ -27,11 +36,27 @@
 (*   pos[p][i]    the tile position of p's i-th update                          *)
 (*   reg[p][i]    its pixel region (a sequence of pixels, possibly empty)       *)
 (*   init[t]      pixels of tile t defined before the run (empty: file absent)  *)
-(*   keymode      "pos": the lock key is a function of the position only - the  *)
+(*   fmt[p]       1: p names the file's format in the call (format=...), 0: it  *)
+(*                relies on its object's default                                *)
+(*   dflt[p]      the default format of p's PyramidIO object: 0 = the format of  *)
+(*                the file, k > 0 = some other format (then fmt[p] = 1: all      *)
+(*                updaters of a configuration address the same files)            *)
+(*   parent       0, or the process that makes its own updates FIRST and then    *)
+(*                forks the other updaters (they inherit its memory image)       *)
+(*   keymode      "pos": the lock key is a function of the tile file only - the  *)
 (*                design of the code.  "proc" / "fmt": keys that also depend on *)
 (*                the process / on the format argument fmt[p]; TLC refutes them *)
 (*                (they are here so that the theorems are known to be sensitive *)
 (*                to the one design decision the property rests on).            *)
+(*                "dflt": the key is computed from the updater's PyramidIO       *)
+(*                object (tile_path(pos) of its DEFAULT format) instead of from  *)
+(*                the file that is read and rewritten.  Refuted.                 *)
+(*                "owner": key = file, but the lock records WHO holds it and an  *)
+(*                attempt succeeds on a lock held under the same identity (link  *)
+(*                count of an owner file, pid in the lock file, a re-entrant     *)
+(*                lock), the identity being computed once per memory image:      *)
+(*                children forked by a process that has already taken a lock     *)
+(*                share their parent's.  Refuted (configurations with parent).   *)
 (*                "env": the lock CLASS (existence lock / flock), hence the      *)
 (*                exclusion domain, is chosen from the updater's environment     *)
 (*                env[p]: updaters configured differently do not exclude each    *)
@@ -72,10 +97,17 @@ vars == <<cfg, lock, tile, pc, upd, buf, order, sawPartial, act>>
 PosOf(p, i) == cfg.pos[p][i]
 RegOf(p, i) == Range(cfg.reg[p][i])
 CurPos(p)  == PosOf(p, upd[p])
+\* fork history: the children of cfg.parent do not exist before it has finished its own updates
+Started(p) == IF cfg.parent \in {0, p} THEN TRUE ELSE pc[cfg.parent] = "done"
+\* design variant "owner": the identity under which p takes locks - memoised at the first acquisition, inherited by fork
+OwnerOf(p) == IF cfg.parent \notin {0, p} /\ cfg.nupd[cfg.parent] > 0 THEN cfg.parent ELSE p
+SameOwner(p, k) == cfg.keymode = "owner" /\ lock[k] # 0 /\ OwnerOf(lock[k]) = OwnerOf(p)
 KeyTag(p)  == CASE cfg.keymode \in {"pos", "steal"} -> 0
                 [] cfg.keymode = "proc" -> p
                 [] cfg.keymode = "fmt"  -> cfg.fmt[p]
                 [] cfg.keymode = "env"  -> cfg.env[p]
+                [] cfg.keymode = "dflt" -> cfg.dflt[p]
+                [] cfg.keymode = "owner" -> 0
 KeyOf(p)   == <<CurPos(p), KeyTag(p)>>
 Keys       == Poss \X (0..MaxP)
 
@@ -99,7 +131,8 @@ Init == \E c \in Cfgs : InitFor(c)
 \* SoftFileLock._acquire: one attempt to create the lock file exclusively
 TryAcquire(p) ==
     /\ pc[p] \in {"start", "trying"}
-    /\ IF lock[KeyOf(p)] = 0
+    /\ Started(p)
+    /\ IF lock[KeyOf(p)] = 0 \/ SameOwner(p, KeyOf(p))
        THEN /\ lock' = [lock EXCEPT ![KeyOf(p)] = p]
             /\ pc' = [pc EXCEPT ![p] = "locked"]
             /\ order' = Append(order, <<p, upd[p]>>)
@@ -181,6 +214,8 @@ InCS(p)  == pc[p] \in {"locked", "read", "modified", "writing", "written"}
 AllDone  == \A p \in Procs : pc[p] = "done"
 
 TypeOK == /\ cfg \in Cfgs
+          /\ \A p \in Procs : cfg.dflt[p] # 0 => cfg.fmt[p] = 1        \* everybody addresses the same files
+          /\ cfg.parent \in 0..MaxP
           /\ lock \in [Keys -> 0..MaxP]
           /\ \A t \in Poss : tile[t].st \in {"absent", "partial", "content"} /\ tile[t].px \in [Pixels -> 0..Junk]
           /\ pc \in [Procs -> {"start", "trying", "locked", "read", "modified", "writing", "written", "done"}]
